@@ -24,6 +24,35 @@ def _value_kind(e):
     if u == "False": return "False"
     if u.startswith("python_type(attr.cls.__name__)("): return "pytype()"
     return "?" + u
+def _helper(tree, fn, call):
+    """the definition of a same-class / same-module helper called as self.h(...) or h(...), else None"""
+    nm = callee_name(call)
+    if nm in ("python_type", "setattr", "getattr", "list", "dict"): return None
+    cls = next((a for a in ancestors(fn) if isinstance(a, ast.ClassDef)), None)
+    cands = [f for f in (cls.body if cls is not None else []) if isinstance(f, ast.FunctionDef) and f.name == nm] + [f for f in tree.body if isinstance(f, ast.FunctionDef) and f.name == nm]
+    return cands[0] if cands else None
+def _helper_values(tree, fn, call, want, classify):
+    """value kinds the helper can return under the valuation `want` (helper body as a decision table; parameters renamed to the call's argument names)"""
+    h = _helper(tree, fn, call)
+    params = [a.arg for a in h.args.args if a.arg not in ("self", "cls")]
+    ren = {p: a.id for p, a in zip(params, call.args) if isinstance(a, ast.Name)}
+    import copy
+    body = copy.deepcopy(h.body)
+    class R(ast.NodeTransformer):
+        def visit_Name(self, n):
+            if n.id in ren: return ast.copy_location(ast.Name(id=ren[n.id], ctx=n.ctx), n)
+            return n
+    body = [ast.fix_missing_locations(R().visit(b)) for b in body]
+    hi = sem.info(h)
+    names, rows = atoms.table(body, feasible=None)
+    cl = {a: classify(a) for a in names}
+    if any(c is None for c in cl.values()): raise AnalysisError("%s: guard outside the supported atom set: %s" % (h.name, [a for a, c in cl.items() if c is None]))
+    out = set()
+    for r in rows:
+        if not all(want[cl[a]] == v for a, v in r.val.items()): continue
+        if r.exit_kind == "return" and r.exit_node.value is not None: out.add(_value_kind(r.exit_node.value))
+        else: out.add("<no value>")
+    return out
 def r_C01ef(root):
     out = []; inst = 0
     t = load(root, MM); fn = find(t, "TextXMetaModel._init_obj_attrs"); fi = sem.info(fn)
@@ -48,7 +77,15 @@ def r_C01ef(root):
                     vals = set()
                     for r in sel:
                         st = [e for e in r.effects if isinstance(e, ast.Expr) and isinstance(e.value, ast.Call) and callee_name(e.value) == "setattr" and len(e.value.args) == 3]
-                        vals.add(_value_kind(st[-1].value.args[2]) if st else "<unset>")
+                        if not st: vals.add("<unset>"); continue
+                        v = st[-1].value.args[2]
+                        if isinstance(v, ast.Name):          # value chosen in the branches, one setattr at the end
+                            idx = r.effects.index(st[-1])
+                            asg = [e for e in r.effects[:idx] if isinstance(e, ast.Assign) and any(isinstance(tg, ast.Name) and tg.id == v.id for tg in e.targets)]
+                            if asg: v = asg[-1].value
+                        if isinstance(v, ast.Call) and _helper(t, fn, v) is not None:      # value computed by an extracted helper
+                            for hv in _helper_values(t, fn, v, want, _classify_atom): vals.add(hv)
+                        else: vals.add(_value_kind(v))
                     exp = expected(many, base, auto, boo)
                     okc = vals == {exp}
                     ob("C01", "C01.e", MM, "TextXMetaModel._init_obj_attrs", "many=%s base=%s auto_init=%s bool=%s -> %s" % (many, base, auto, boo, sorted(vals)), okc)
@@ -77,11 +114,11 @@ def r_C01ef(root):
     if not g1: raise AnalysisError("use_regexp_group: group(1) selection not found in process_node")
     for c in g1:
         inst += 1
-        gs = [(ast.unparse(fip.expand(g, at=g)).replace(" ", ""), pol) for g, pol in fip.guards(c)]
-        has_opt = any(u == "metamodel.use_regexp_group" and pol for u, pol in [(x.split("and")[0], p) for x, p in gs]) or any("metamodel.use_regexp_group" in u and pol for u, pol in gs)
-        static_count = any(pol and u.endswith(".groups==1") and ".regex." in u for u, pol in gs)
+        at = [(a_.replace(" ", ""), pol) for a_, pol in fip.atoms_at(c)]
+        has_opt = any(u == "metamodel.use_regexp_group" and pol for u, pol in at)
+        static_count = any(pol and u.endswith(".groups==1") and ".regex." in u for u, pol in at)
         okc = has_opt and static_count
         ob("C01", "C01.g", M, "parse_tree_to_objgraph.process_node", ast.unparse(c), okc)
         if not has_opt: out.append(Finding("C01", "C01.g", M, "parse_tree_to_objgraph.process_node", ast.unparse(c), "regex group is used as the value although use_regexp_group is not tested"))
-        elif not static_count: out.append(Finding("C01", "C01.g", M, "parse_tree_to_objgraph.process_node", ast.unparse(c), "group 1 is selected by a property of the individual match (guards: %s); documented: iff the pattern defines exactly one group" % [u for u, p in gs], witness="use_regexp_group=True and a regex with two groups of which only the first takes part in the match"))
+        elif not static_count: out.append(Finding("C01", "C01.g", M, "parse_tree_to_objgraph.process_node", ast.unparse(c), "group 1 is selected by a property of the individual match (conditions: %s); documented: iff the pattern defines exactly one group" % [u for u, p in at if p][-3:], witness="use_regexp_group=True and a regex with two groups of which only the first takes part in the match"))
     return inst, out
